@@ -175,8 +175,10 @@ class ConstantScoreQuery(WrappingQuery):
 
         context = context or SearchContext()
         m = self.child.matcher(searcher, context)
-        if context.needs_current or isinstance(m, matching.NullMatcherClass):
+        if isinstance(m, matching.NullMatcherClass):
             return m
+        elif context.needs_current:
+            return matching.ConstantScoreWrapperMatcher(m, self.score)
         else:
             ids = array("I", m.all_ids())
             return matching.ListMatcher(ids, all_weights=self.score,
